@@ -288,7 +288,79 @@ def install_add_asset(reg: Registry):
                                         note='needs: finitely many names are taken and the candidates gen:1, gen:2, ... are pairwise different (string reasoning)')}))
 
 
+def old_lists_unchanged(o: H, h: H, excepted=()):
+    return lists_unchanged_where(o, h, lambda l: z3.And(*[l != e for e in excepted]) if excepted else z3.BoolVal(True), 'ol')
+
+
+def own_cls_unchanged(o: H, h: H):
+    x = A('x!oc')
+    return z3.And(FA([x], z3.Implies(z3.And(x >= 0, x < o.alloc), z3.And(h.own_obj(x) == o.own_obj(x), h.own_fld(x) == o.own_fld(x))), [h.own_obj(x)]),
+                  FA([x], z3.Implies(z3.And(x >= 0, x < o.alloc), h.own_fld(x) == o.own_fld(x)), [h.own_fld(x)]),
+                  FA([x], z3.Implies(z3.And(x >= 0, x < o.alloc), h.cls(x) == o.cls(x)), [h.cls(x)]))
+
+
+def install_remove_association(reg: Registry):
+    def BLo(o, x): return o.f('associations', x)
+
+    def J(o, h, s, x, tag):
+        """the back-reference list of x is either the old object, or a fresh owned list equal to the old one minus s"""
+        r = A('r!' + tag)
+        kv = z3.Const('k!' + tag, Val)
+        B = h.f('associations', x)
+        fresh = z3.And(B >= o.alloc, B < h.alloc, owned(h, B, x, 'associations'), h.cls(B) == CLS_LIST,
+                       FA([r], h.cnt(B, r) == z3.If(r == s, 0, o.cnt(BLo(o, x), r)), [h.cnt(B, r)]),
+                       FA([kv], z3.And(h.bag(B, kv) >= 0, z3.Implies(h.bag(B, kv) > 0, is_VRef(kv))), [h.bag(B, kv)]))
+        return z3.Or(B == BLo(o, x), fresh)
+
+    def common(c):
+        o, h, M, s = c.old, c.h, c.self, c.association
+        x = A('x!rc')
+        return [('old-lists', old_lists_unchanged(o, h)), ('own-cls', own_cls_unchanged(o, h)),
+                ('dicts', z3.And(*[h.arr[n] == o.arr[n] for n in DICT_ARRAYS])),
+                ('J', FA([x], z3.Implies(is_asset(o, M, x), J(o, h, s, x, 'rj')), [h.f('associations', x)])),
+                ('others', FA([x], z3.Implies(z3.Not(is_asset(o, M, x)), h.f('associations', x) == BLo(o, x)), [h.f('associations', x)]))]
+
+    def inv0(c: LCtx):
+        o, h, M, s = c.old, c.h, c.self, c.association
+        x = A('x!r0')
+        return common(c) + [
+            ('done', FA([x], z3.Implies(z3.And(is_asset(o, M, x), z3.Select(c.done, VRef(x)) > 0), h.cnt(h.f('associations', x), s) == 0), [z3.Select(c.done, VRef(x))])),
+            ('not-done', FA([x], z3.Implies(z3.Select(c.done, VRef(x)) <= 0, h.f('associations', x) == BLo(o, x)), [h.f('associations', x)]))]
+
+    def inv1(c: LCtx):
+        o, h, M, s = c.old, c.h, c.self, c.association
+        x = A('x!r1')
+        return common(c) + [
+            ('left-done', FA([x], z3.Implies(in_l(o, s, x) > 0, h.cnt(h.f('associations', x), s) == 0), [in_l(o, s, x)])),
+            ('done', FA([x], z3.Implies(z3.And(is_asset(o, M, x), z3.Select(c.done, VRef(x)) > 0), h.cnt(h.f('associations', x), s) == 0), [z3.Select(c.done, VRef(x))])),
+            ('not-done', FA([x], z3.Implies(z3.And(z3.Select(c.done, VRef(x)) <= 0, in_l(o, s, x) <= 0), h.f('associations', x) == BLo(o, x)), [h.f('associations', x)]))]
+
+    def ensures(c):
+        o, h, M, s = c.old, c.h, c.self, c.association
+        x, r = A('x!re'), A('r!re')
+        kv = z3.Const('k!re', Val)
+        SL, D = o.f('associations', M), o.f('_type_to_association', M)
+        key = VStr(o.f('clsname', s))
+        bucket = v_a(o.val(D, key))
+        return WFM(h, M) + [
+            ('removed', z3.And(h.cnt(SL, s) == 0, FA([r], z3.Implies(r != s, h.cnt(SL, r) == o.cnt(SL, r)), [h.cnt(SL, r)]))),
+            ('backrefs', FA([x, r], z3.Implies(is_asset(o, M, x), h.cnt(h.f('associations', x), r) == z3.If(r == s, 0, o.cnt(BLo(o, x), r))),
+                            [h.cnt(h.f('associations', x), r)])),
+            ('fields-untouched', z3.And(list_unchanged(o, h, o.f('lfield', s)), list_unchanged(o, h, o.f('rfield', s)))),
+            ('frame.lists', old_lists_unchanged(o, h, [SL, bucket])),
+            ('frame.buckets', FA([kv], z3.Implies(kv != key, z3.And(h.has(D, kv) == o.has(D, kv), h.val(D, kv) == o.val(D, kv))), [h.has(D, kv)])),
+            ('frame.sets', z3.And(*[z3.And(z3.Select(h.arr['D_has'], o.f(f, M)) == z3.Select(o.arr['D_has'], o.f(f, M))) for f in ('asset_ids', 'asset_names')])),
+        ]
+
+    reg.add(Contract(MM + ':Model.remove_association', {'self': Obj(MODEL), 'association': Obj(ASSOC)},
+                     requires=lambda c: WFM(c.old, c.self), ensures=ensures,
+                     raises={'LookupError': lambda c: z3.Not(is_assoc(c.old, c.self, c.association))},
+                     modifies=LIST_ARRAYS + ('D_has', 'D_size', 'D_keyat', 'cls', 'own_obj', 'own_fld', 'f_associations'), allocates=True,
+                     loops={0: LoopSpec(inv0, iter_src='left_field'), 1: LoopSpec(inv1, iter_src='right_field')}, props=('C05',)))
+
+
 def install(reg: Registry):
     install_attachment(reg)
     install_attackers(reg)
     install_add_asset(reg)
+    install_remove_association(reg)
